@@ -127,12 +127,23 @@ func checkC03(c *Ctx) {
 	checkSplitAssemble(c, "R2")
 
 	// ---------------- R3
-	allowed := map[string]string{
-		redisPkg + ".(*compressFilter).Compress":   "replaces a value by header+stream (C13)",
-		redisPkg + ".(*compressFilter).compress":   "copies the compressed bytes over the original (C13.R2)",
-		redisPkg + ".(*compressFilter).Decompress": "replaces header+stream by the original value in a reply (C13)",
-		redisPkg + ".(*scanRequest).Convert":       "rewrites the cursor argument (C18.R4)",
-		redisPkg + ".(*scanRequest).Convert$2":     "rewrites the cursor element of the reply (C18.R4)",
+	// by role: the compression filter (any of its methods and their closures) rewrites values (C13), the SCAN
+	// request rewrites its cursor (C18.R4)
+	allowedRecv := map[string]string{
+		"compressFilter": "the compression filter replaces a value by header+stream and back (C13)",
+		"scanRequest":    "the SCAN request rewrites the cursor argument and the cursor element of the reply (C18.R4)",
+	}
+	allowed := map[string]string{}
+	for _, fn := range p.SrcFns {
+		t := topFn(fn)
+		if t.Signature.Recv() == nil || !isModFn(fn) {
+			continue
+		}
+		if n := namedOf(t.Signature.Recv().Type()); n != nil && n.Obj().Pkg() != nil && n.Obj().Pkg().Path() == modPath+"/"+redisPkg {
+			if why, ok := allowedRecv[n.Obj().Name()]; ok {
+				allowed[fnKey(fn)] = why
+			}
+		}
 	}
 	nW := 0
 	for _, fn := range p.SrcFns {
